@@ -10,17 +10,35 @@ import (
 // Meta.UnmarshalWithDecoder over bufio.Reader), ContentSizeBytes, ReadAll (readAllContent) on a
 // file of arbitrary bytes: error or values; no panic; allocation proportional to the file.
 // Layout: magic(8) version u64 metadata (count, (len,key,len,value)*) (key u64, value u64)*.
-// Every byte symbolic; the bytes of the metadata area are restricted to [0,2] ∪ [254,255]
-// because metadata length bytes are concretised.
+// Every byte symbolic. Metadata length bytes are concretised and the metadata area is not
+// delimited (a large pair count makes the decoder run into the content), so two shapes are
+// explored: (A) pair count <= 1 with restricted length bytes and arbitrary content, (B) any pair
+// count on a short file whose bytes after the version are in {0,1,255}.
 func VerifC12Manifest() {
-	M := verifParam("meta", 3)    // bytes of metadata area
-	C := verifParam("content", 17) // bytes after it
-	lens := []int{16 + M + C, 5, 8, 15, 16, 17, 16 + M}
-	n := lens[verifChoice("len", verifParam("lens", len(lens)))]
+	C := verifParam("content", 17) // bytes after the metadata
+	P := verifParam("small", 5)    // shape B: bytes after the version
 	verifAllocLimit(int64(verifParam("alloc", 16384)))
-	data := verifBytes("file", n)
-	for i := 16; i < n && i < 16+M; i++ {
-		verifAssume(data[i] <= 2 || data[i] >= 254)
+	var data []byte
+	var n int
+	if verifChoice("shape", 2) == 0 {
+		// shape A: at most one metadata pair announced, its two length bytes restricted;
+		// everything else (magic, version, keys, values, content) arbitrary
+		lens := []int{16 + 1 + C, 5, 8, 15, 16, 17, 16 + 3 + C}
+		n = lens[verifChoice("len", verifParam("lens", len(lens)))]
+		data = verifBytes("file", n)
+		if n > 16 {
+			verifAssume(data[16] <= 1)
+		}
+		for i := 17; i < n && i < 17+4; i++ {
+			verifAssume(data[i] <= 2 || data[i] >= 254)
+		}
+	} else {
+		// shape B: any number of pairs announced, P restricted bytes after the version
+		n = 16 + 1 + verifChoice("len", P)
+		data = verifBytes("file", n)
+		for i := 16; i < n; i++ {
+			verifAssume(data[i] <= 1 || data[i] == 255)
+		}
 	}
 	path := verifTempPath("manifest")
 	verifMemFile(path, data)
